@@ -559,6 +559,18 @@ CHECKS += [
          technique="lifted execution of the grouping utilities on z3 coefficient terms; z3 linear-identity proofs over all coefficients plus structural partition / relation checks"),
 ]
 
+CHECKS += [
+    dict(property_id="C59", category="other", engine=E1,
+         text="Partial (circuit_spectrum): 7 circuits whose input-encoding gates are marked with qp.fourier.mark (RX/RY/RZ, CRX, IsingXX, PauliRot, controlled RZ, PhaseShift, MultiRZ; repeated and "
+              "multiple markers) go through the REAL circuit_spectrum; the same circuits run on the lifted default.qubit with the inputs and all other angles SYMBOLIC. With F the positive reported "
+              "frequencies of a marker, z3 proves for all angle values that L_F = d/dx prod_f (d^2/dx^2 + f^2) annihilates every expectation value and probability, i.e. the reported spectrum "
+              "contains every frequency present; spectra are symmetric and contain 0. Non-vacuity twins: for 3 tight circuits the operator without the largest frequency leaves a residue (z3 sat).",
+         note=PROOF_NOTE + " Category 'other' (partial): qnode_spectrum (autodiff Jacobian of classical preprocessing), fourier.coefficients / reconstruct (FFT, numerical fitting) and classically "
+              "preprocessed inputs are outside. A hand-made mutant of join_spectra (max instead of sum of two frequencies) is reported by 6 obligations; counterexamples are replayed by an FFT over "
+              "one common period.",
+         technique="lifted execution of default.qubit on z3 angle terms; symbolic differentiation on the circle atoms; z3 QF_NRA validity of the annihilation identity"),
+]
+
 _NOT_BUILT = "claimed in DESIGN.md §4 but its solver-based check is not built yet in this tree"
 NOT_APPLICABLE_REASONS = {
     "C11": "declared resources depend only on discrete configurations that must each be run concretely; no symbolic dimension",
@@ -574,7 +586,6 @@ NOT_APPLICABLE_REASONS = {
     "C48": "interface agnosticism: torch/jax/autograd kernels cannot carry solver terms",
     "C55": "Lie-algebra tools: rank/independence via SVD/least squares",
     "C58": "block-encoding/oracle templates: QSVT/GQSP angle solvers, sqrtm/svd; no closed-form symbolic matrices",
-    "C59": "Fourier tools: FFT and autodiff Jacobians",
     "C62": "quantum chemistry: integrals, SCF, PySCF",
     "C63": "pulse evolution: ODE integration in JAX",
     "C64": "datasets: HDF5 I/O",
